@@ -201,11 +201,11 @@ func genArchive(t *rapid.T, label string, level, maxLevel int) zipgen.Archive {
 			if level < maxLevel {
 				nested := genArchive(t, fmt.Sprintf("%s-nest%d", label, i), level+1, maxLevel)
 				e.Nested = &nested
-				name += rapid.SampledFrom([]string{".zip", ".zip", ".jar"}).Draw(t, fmt.Sprintf("%s-ext%d", label, i))
+				name += rapid.SampledFrom([]string{".zip", ".zip", ".jar", ".ZIP", ".Jar"}).Draw(t, fmt.Sprintf("%s-ext%d", label, i))
 			}
 		case 4:
 			e.Garbage = true
-			name += rapid.SampledFrom([]string{".zip", ".gz", ".jar", ".7z"}).Draw(t, fmt.Sprintf("%s-gext%d", label, i))
+			name += rapid.SampledFrom([]string{".zip", ".gz", ".jar", ".7z", ".ZIP", ".Jar", ".GZ", ".7Z", ".tar.gz", ".Zip"}).Draw(t, fmt.Sprintf("%s-gext%d", label, i))
 		}
 		if !e.Dir && e.Nested == nil {
 			var sz int
